@@ -1,42 +1,34 @@
 //! C01: every client converges to the server state under any legal network schedule.
 use crate::{
+    cells,
     check::{CellPlan, Tier, plan},
-    repl::{Env, Oracles, ReplCell},
+    repl::Oracles,
     sim::*,
 };
 
-pub const AB: u16 = (1 << TA) | (1 << TB);
-
-pub fn base(name: &str, property: &'static str) -> ReplCell {
-    ReplCell {
-        name: name.into(),
-        property,
-        cfg: Cfg::default(),
-        init: vec![Op::Spawn(0, AB)],
-        alphabet: vec![
-            Op::Nop,
-            Op::Mut(0, TA),
-            Op::Rm(0, TA),
-            Op::Rm(0, TB),
-            Op::Ins(0, TB),
-            Op::Spawn(1, 1 << TB),
-            Op::Despawn(0),
-        ],
-        ops_per_round: 1,
-        rounds: 3,
-        tick_choice: true,
-        env: Env::full(),
-        oracles: Oracles::default(),
-        closure_rounds: 6,
-    }
-}
-
 pub fn cells(tier: Tier) -> Vec<CellPlan> {
+    let o = Oracles { c01: true, ..Default::default() };
+    let q = tier.quick();
     let mut v = Vec::new();
-    let mut c = base("c01-ab-1c", "C01");
-    c.oracles.c01 = true;
-    v.push(plan(c, if tier.quick() { 1 } else { 2 }, 1.0));
+    let mut add = |mut c: crate::repl::ReplCell, dev_q: u32, dev_t: u32, rounds_t: usize, w: f64| {
+        c.oracles = o.clone();
+        if !q {
+            c.rounds = rounds_t;
+        }
+        v.push(plan(c, if q { dev_q } else { dev_t }, w));
+    };
+    add(cells::single("C01"), 1, 2, 4, 2.0);
+    add(cells::two("C01"), 1, 2, 4, 2.0);
+    add(cells::visibility("C01", Vis::Blacklist, 1), 1, 2, 4, 2.0);
+    add(cells::visibility("C01", Vis::Whitelist, 1), 1, 2, 4, 2.0);
+    add(cells::rates("C01"), 1, 2, 4, 1.0);
+    add(cells::refs("C01"), 1, 2, 4, 1.0);
+    add(cells::hierarchy("C01"), 1, 2, 4, 1.0);
+    add(cells::wiring("C01", TickWiring::EveryFrame, 10), 1, 2, 4, 1.0);
+    add(cells::wiring("C01", TickWiring::MaxTickRate(50), 10), 1, 2, 4, 1.0);
+    add(cells::wiring("C01", TickWiring::MaxTickRate(50), 20), 1, 2, 4, 1.0);
+    add(cells::two_clients("C01"), 1, 2, 3, 2.0);
     v
 }
 
-pub const RULE: &str = "every history of <=1 op per round over the cell alphabet x tick/no-tick x every network schedule in normal form with <= d deviations, each run to closure on two real Apps; non-trivial = at least one world operation applied; distinct = distinct final (server state, client views) digests";
+pub const RULE: &str = "every history of <=1 op per round over the cell alphabet x tick/no-tick x every network schedule in normal form with <= d deviations, each run to closure on real Apps; non-trivial = at least one world operation applied; distinct = distinct final (server state, client views) digests";
